@@ -49,7 +49,7 @@ def match_finding(findings, job, trace, verdict, at):
 
 
 def plans(fmt, num, seed, stmts=3, tokens=30, small=False):
-    """behaviours of the writer machine TurtleSpelling.tla, exported by TLC in simulation mode"""
+    """behaviours of the writer machine TurtleSpelling.tla, [and of RdfXmlSpelling.tla for RDF/XML: node elements typed or not, rdf:about / rdf:ID / rdf:nodeID / anonymous, property attributes, rdf:type attributes, nested / literal / typed-literal / empty / rdf:resource / rdf:nodeID property elements, parseType Resource / Collection / Literal, rdf:li, rdf:ID reification, xml:lang and xml:base scoping; rendered with random prefixes, local and re-bound xmlns declarations, default namespace, entities, CDATA, character references] exported by TLC in simulation mode"""
     d = tlc.scratch("rvf-gen-")
     try:
         cfg = os.path.join(d, "gen.cfg")
@@ -73,6 +73,33 @@ def plans(fmt, num, seed, stmts=3, tokens=30, small=False):
         return r, out
     finally:
         shutil.rmtree(d, ignore_errors=True)
+
+
+def xml_plans(num, seed, tokens=9, workers=8):
+    """behaviours of the RDF/XML writer machine RdfXmlSpelling.tla (simulation mode, several seeds in parallel)"""
+    from concurrent.futures import ThreadPoolExecutor
+
+    def one(k):
+        d = tlc.scratch("rvf-gen-")
+        try:
+            cfg = os.path.join(d, "gen.cfg")
+            consts = {"NNs": "3", "Locals": tlc.tla_set(["x", "y"]), "NLit": "3", "NDt": "2", "Langs": tlc.tla_set(["en", "fr"]), "MaxTop": "2", "MaxDepth": "5", "MaxTokens": str(tokens)}
+            tlc.write_cfg(cfg, spec="Spec", constants=consts, constraints=["Export"], invariants=["WellFormedMeaning", "LangOnlyOnPlain", "LiDense", "NoDanglingCell"])
+            return tlc.export_json("RdfXmlSpelling", cfg, timeout=900, extra=["-simulate", "num=%d" % max(1, num // workers), "-depth", "80", "-seed", str(seed * 100 + k)])
+        finally:
+            shutil.rmtree(d, ignore_errors=True)
+    with ThreadPoolExecutor(workers) as ex:
+        res = list(ex.map(one, range(workers)))
+    seen, out = set(), []
+    for r, items in res:
+        for it in items:
+            key = repr(it["doc"])
+            nb = {x["v"] for q in it["quads"] for x in q.values() if x["k"] == "bnode"}
+            if len(nb) > 6 or key in seen:
+                continue
+            seen.add(key)
+            out.append(it)
+    return res[0][0], out
 
 
 def _iri(ns, l):
@@ -151,8 +178,10 @@ def run(out, tier, seed):
                 "(white space, comments, \\u / \\U / ECHAR escapes, PN_LOCAL escapes, keyword case, optional trailing ';' and '.') and handed to rdflib as str, bytes, BytesIO, StringIO, path, pathlib.Path and open file; "
                 "rdflib's N-Triples / N-Quads output for the C03 / C06 shapes decoded by the strict grammar NTriplesGrammar.tla; XML / JSON outputs read by the stdlib parsers")
     out.assumptions += ["literals with a datatype are compared after rdflib's normalising constructor (lexical normalisation belongs to C07 / C09)",
-                        "RDF/XML and JSON-LD alternative spellings are covered by hand-enumerated documents, not by a writer machine"]
+                        "JSON-LD alternative spellings are covered by hand-enumerated documents, not by a writer machine",
+                        "RDF/XML names are NCNames of XML 1.0 fourth edition (what expat reads); parseType=Literal content is text only"]
     out.mc("TurtleSpelling", "MC_TurtleSpelling.cfg")
+    out.mc("RdfXmlSpelling", "MC_RdfXmlSpelling.cfg")
     rng = random.Random(seed)
     jobs = []
     n = 250 if quick else 3000
@@ -177,6 +206,14 @@ def run(out, tier, seed):
         for pi, p in enumerate(items):
             for v in range(3):
                 jobs.append({"cfg": {}, "events": [{"op": "spell_plan", "fmt": fmt, "plan": p, "seed": seed * 7919 + pi * 3 + v, "routes": ROUTES if v == 0 else ["str", "bytes"], "family": "composed"}]})
+    # RDF/XML: behaviours of the writer machine RdfXmlSpelling.tla, rendered by xml_spell.py
+    r, xps = xml_plans(320 if quick else 4000, seed + 1)
+    out.states += r.generated
+    out.extra["plans_xml"] = len(xps)
+    for pi, p in enumerate(xps):
+        for v in range(2):
+            routes = ROUTES if (pi + v) % 5 == 0 else ["str", ROUTES[1 + (pi + v) % (len(ROUTES) - 1)]]
+            jobs.append({"cfg": {}, "events": [{"op": "spell_plan", "fmt": "xml", "plan": p, "seed": seed * 1000033 + pi * 2 + v, "routes": routes, "family": "xml-machine"}]})
     from ..spell_docs import all_docs
     for fmt, name, text, quads in all_docs():
         enc = "utf-16" if name == "utf-16" else "utf-8"
